@@ -165,3 +165,28 @@ Theorem C08_failed_logout_not_reported : forall cl r g hint cid g' x u c,
   logout_fails (policy g) c = true -> x <> ORedirect /\ g' = g.
 Proof. exact failed_logout_not_reported. Qed.
 Print Assumptions C08_failed_logout_not_reported.
+
+(* Round 9 - provider options about key sets.  NewProvider's handling of the options (a fold that
+   sets one field per option) yields exactly what the configuration designates: the last
+   WithAccessTokenKeySet for access tokens, the last WithIDTokenHintKeySet for hints, else the
+   storage's keys - independently of each other. *)
+Theorem C08_configuration_is_designation : forall opts, configure opts = designated opts.
+Proof. exact configure_designated. Qed.
+Print Assumptions C08_configuration_is_designation.
+
+(* a JWT signed with a key that only a custom key set trusts (a retired key) is no access token -
+   not read, no userinfo, no active:true, any router, any state - unless the configuration
+   designates that key FOR ACCESS TOKENS; what WithIDTokenHintKeySet trusts is irrelevant *)
+Theorem C08_extra_key_not_an_access_token : forall opts host ku iss e jti sub azp,
+  k_at (designated opts) = false ->
+  let t := localize (configure opts) UAT host ku (PJwtX iss e jti sub azp) in
+  read_at t = None /\ as_access t = Junk /\
+  (forall r g s, userinfo r g t <> OInfo s) /\
+  (forall cl r g c s cid sc b, introspect cl r g c t <> OIntro true s cid sc b).
+Proof. exact extra_key_not_an_access_token. Qed.
+Print Assumptions C08_extra_key_not_an_access_token.
+
+Theorem C08_hint_option_says_nothing_about_access_tokens : forall b, k_at (designated [OptHintKeys b]) = false /\
+  k_at (designated [OptHintKeys b; OptATKeys false]) = false /\ k_at (designated [OptATKeys false; OptHintKeys b]) = false.
+Proof. exact hint_option_says_nothing_about_access_tokens. Qed.
+Print Assumptions C08_hint_option_says_nothing_about_access_tokens.
